@@ -68,6 +68,14 @@ func (a *condAssume) eval(e ast.Expr) int {
 			for _, pair := range [][2]ast.Expr{{v.X, v.Y}, {v.Y, v.X}} {
 				vo := objOf(a.info, pair[0])
 				if vo == nil {
+					// a field: entry.Mode == filemode.Dir (the assumption is then about that field of whatever value)
+					if sel, ok := unparen(pair[0]).(*ast.SelectorExpr); ok {
+						if fv, ok := a.info.Uses[sel.Sel].(*types.Var); ok && fv.IsField() {
+							vo = fv
+						}
+					}
+				}
+				if vo == nil {
 					continue
 				}
 				assumed, ok := a.eq[vo]
